@@ -63,13 +63,32 @@ class EnipWorld(object):
             d = sch.between(0, 3, 'pctd')
             self.sched.pct_changes = set(sch.between(1, 400, 'pctk') for _ in range(d))
         if preempt or count_calls:
-            for fn in traced_functions(self.m):
+            fns = traced_functions(self.m)
+            focus = 'all'
+            if preempt and not count_calls:
+                # where the pre-emption budget goes: everywhere, the request-execution core, or one
+                # single function (so that rare windows are entered on purpose, buggify-style)
+                focus = sch.weighted([(2, 'all'), (2, 'core'), (4, 'one')], 'focus')
+            core = ('__getitem__', '__setitem__', 'produce', '_validate_key', 'request', 'reply_elements',
+                    '__exit__', 'post_process_closure', '__enter__', 'terminate', 'closure')
+            if focus == 'core':
+                fns = [f for f in fns if f.__name__ in core]
+                self.sched.preempt_gap = sch.choice([20, 60, 150, 400], 'pgapfocus')
+            elif focus == 'one':
+                cand = [f for f in fns if f.__name__ in core or f.__name__ in ('process', 'setup', 'enip_srv_tcp', 'forward_open', 'forward_close')]
+                fns = [cand[sch.draw(len(cand) + 1, 'focusfn') % len(cand)]] if not params.get('focus_fn') else \
+                    [f for f in fns if f.__qualname__ == params['focus_fn']]
+                self.sched.preempt_gap = sch.choice([3, 8, 25, 80], 'pgapone')
+            self.focus = focus if focus != 'one' else 'one:' + fns[0].__qualname__
+            for fn in fns:
                 self.sched.add_traced(fn)
             # the closure inside state_multiple_service.terminate
-            for c in self.m['device'].state_multiple_service.terminate.__code__.co_consts:
-                if hasattr(c, 'co_name') and c.co_name == 'closure':
-                    self.sched.traced_codes[c] = 'closure'
+            if focus in ('all', 'core') or fns[0].__name__ == 'terminate':
+                for c in self.m['device'].state_multiple_service.terminate.__code__.co_consts:
+                    if hasattr(c, 'co_name') and c.co_name == 'closure':
+                        self.sched.traced_codes[c] = 'closure'
         self.sched.count_calls = count_calls
+        self.focus = None
         self.violations = []
         self.harness_errors = []
         self.sessions = []
@@ -731,3 +750,17 @@ def short(op):
     if 'data' in d:
         d['data'] = d['data'].hex()[:32]
     return d
+
+
+def expected_reply_bytes(op, exp):
+    """The exact CIP reply bytes the model predicts (only for exact expectations)."""
+    assert not exp.any_error and not exp.unknown
+    out = struct.pack('<BBBB', SERVICE[op['kind']] | 0x80, 0, exp.status, len(exp.ext))
+    for x in exp.ext:
+        out += struct.pack('<H', x)
+    if exp.status in (0, 6):
+        if op['kind'] in ('read', 'readfrag'):
+            out += struct.pack('<H', rc.TYPE_CODE[exp.tname]) + expected_payload(exp)
+        elif op['kind'] == 'gas':
+            out += expected_payload(exp)
+    return out
